@@ -134,9 +134,12 @@ CutAt ==
        /\ \A j \in 1..i : SameKey(obs[ki[m + j]], Rec[l + j])
        /\ l + i < lim /\ Rec[l + i + 1].k \in {"crash", "cut"}
        \* (replies the step logs right after an EVENT were sent before it was taken; after an operation's line they
-       \* are what happens once it completes, which it never does)
-       /\ LET pre == SubSeq(obs, 1, IF obs[ki[m + i]].k # "ev" THEN ki[m + i]
-                                    ELSE IF m + i < Len(ki) THEN ki[m + i + 1] - 1 ELSE Len(obs))
+       \* are what happens once it completes, which it never does - unless the model marks them `early`)
+       /\ LET p0 == ki[m + i]
+              stop == IF m + i < Len(ki) THEN ki[m + i + 1] - 1 ELSE Len(obs)
+              Sent(e) == obs[p0].k = "ev" \/ Has(e, "early")
+              p1 == CHOOSE p \in p0..stop : (\A q \in (p0 + 1)..p : Sent(obs[q])) /\ (p = stop \/ ~Sent(obs[p + 1]))
+              pre == SubSeq(obs, 1, p1)
               last == pre[Len(pre)] IN
           IF Rec[l + i + 1].k = "crash"
             THEN /\ \E j \in (l + i + 2)..lim : Rec[j].k = "restart"
